@@ -440,15 +440,86 @@ def run_rows(ctx, bi):
                classify=classify, nontrivial=lambda case, outs: is_num(outs[0]) and outs[0] != 0)
 
 
+def run_kinds(ctx, bi):
+    """criteria that are EQUAL in Python but of different kinds (TRUE and 1, FALSE and 0, 1 and "1", 1 and 1.0) over a range holding all of these
+    kinds, asked of ONE class instance in several orders and of a fresh Executor each.  No reference is used (what a logical cell is
+    to a numeric criterion is the library's reading): the law is that the value of a conditional aggregate is a matter of its arguments,
+    not of which other criteria the instance has analysed before - and that a formula holding two of them gives what its parts give."""
+    from excel2pycl import Executor, Cell
+    r, rng = ctx.r, ctx.rng
+    pool = [True, False, 1, 0, 1.0, 0.0, '1', '0', 'TRUE', 'true', None, 2, 'x', True, 1, False, 0]
+    cells = {}
+    for row in range(1, 11):
+        v = rng.choice(pool)
+        if v is not None:
+            cells[f'A{row}'] = v
+        cells[f'B{row}'] = 10 ** (row % 5) * rng.randrange(1, 9)
+    cells.update({'E1': True, 'E2': 1, 'E3': False, 'E4': 0, 'E5': '1', 'E6': 1.0})
+    crits = ['TRUE', '1', 'FALSE', '0', '"1"', '"TRUE"', 'E1', 'E2', 'E3', 'E4', 'E5', 'E6', '"=1"', '"=TRUE"', '"<>0"', '"<>FALSE"', '1.0', '">0"']
+    forms = {}
+    for i, c in enumerate(crits):
+        for j, fn in enumerate(['=COUNTIFS(A1:A10,{c})', '=SUMIF(A1:A10,{c},B1:B10)', '=SUMIFS(B1:B10,A1:A10,{c})', '=AVERAGEIFS(B1:B10,A1:A10,{c})']):
+            forms[wbspec.a1(i + 1, 8 + j)] = fn.format(c=c)
+    pairs = {}
+    keys = list(forms)
+    for k in range(12):
+        a, b = rng.sample([x for x in keys if forms[x].startswith(('=COUNTIFS', '=SUMIF('))], 2)
+        pairs[wbspec.a1(k + 1, 14)] = (a, b)
+        cells[wbspec.a1(k + 1, 14)] = f'={forms[a][1:]}*100000+{forms[b][1:]}'
+    cells.update(forms)
+    spec = wbspec.spec(wbspec.sheet('S', cells))
+    book = pipeline.Book(spec, ctx.workdir, name=f'kinds{bi}')
+    if book.cls is None:
+        r.violation('translate', {'spec': spec}, book.whole.brief(), 'a loadable class')
+        return
+
+    def ask(ex, a):
+        rr, cc = wbspec.rc(a)
+        o = pipeline.guarded(lambda: ex.get_cell(Cell(0, cc - 1, rr - 1)).value, 'evaluate')
+        return json.dumps(o.brief(), sort_keys=True, default=str), o
+    base = {}
+    for a in list(forms) + list(pairs):
+        base[a] = ask(Executor().set_executed_class(class_object=book.cls), a)
+        r.ev()
+    for trial in range(4):
+        ex = Executor().set_executed_class(class_object=book.cls)
+        order = list(forms)
+        rng.shuffle(order)
+        for a in order:
+            got, o = ask(ex, a)
+            r.ev()
+            r.count('criteria_kind_order_checks')
+            r.nt(('kinds', bi, trial, a))
+            if got != base[a][0]:
+                report(r, ID, None, {'formula': forms[a], 'cell': a, 'sheet': 0, 'spec': spec, 'asked_before': [forms[x] for x in order[:order.index(a)]][-6:],
+                                     'how': 'one Executor, criteria of several kinds in a random order', 'kinds_law': True},
+                       o.brief(), base[a][1].brief(), monitor='criterion-depends-on-earlier-criteria')
+                break
+    for a, (x, y) in pairs.items():
+        ox, oy, oz = base[x][1], base[y][1], base[a][1]
+        if ox.ok and oy.ok and is_num(ox.value) and is_num(oy.value):
+            r.ev()
+            r.count('criteria_kind_pair_checks')
+            want = ox.value * 100000 + oy.value
+            if not (oz.ok and is_num(oz.value) and abs(oz.value - want) < 1e-6):
+                report(r, ID, None, {'formula': cells[a], 'cell': a, 'sheet': 0, 'spec': spec, 'how': 'two conditional aggregates in one formula', 'kinds_law': True},
+                       oz.brief(), want, monitor='criterion-depends-on-earlier-criteria')
+    r.sample({'criteria_of_equal_value_and_other_kind': crits[:8]})
+
+
 def _plan(tier, seed):
     n = 6 if tier == 'quick' else 160
-    return [{'k': k, 'n': n} for k in range(16)] + [{'dates': k, 'n': 2 if tier == 'quick' else 40} for k in range(4)] + [{'clock': k, 'n': 2 if tier == 'quick' else 12} for k in range(2)] + [{'rows': k, 'n': 3 if tier == 'quick' else 40} for k in range(2)]
+    return [{'k': k, 'n': n} for k in range(16)] + [{'dates': k, 'n': 2 if tier == 'quick' else 40} for k in range(4)] + [{'clock': k, 'n': 2 if tier == 'quick' else 12} for k in range(2)] + [{'rows': k, 'n': 3 if tier == 'quick' else 40} for k in range(2)] + [{'kinds': k, 'n': 3 if tier == 'quick' else 40} for k in range(2)]
 
 
 def run_shard(shard, ctx):
     if isinstance(shard, dict) and 'mixed' in shard:
         from ..mixed import run_mixed
         return run_mixed(ctx, ID, shard['n'])
+    if 'replay' in shard and shard['replay'].get('kinds_law'):
+        for i in range(6):
+            run_kinds(ctx, i)
+        return
     if 'replay' in shard and shard['replay'].get('demand') == 'no-foreign-exception':
         c = shard['replay']
         book = pipeline.Book(c['spec'], ctx.workdir, name='replay')
@@ -462,6 +533,10 @@ def run_shard(shard, ctx):
     if 'rows' in shard:
         for i in range(shard['n']):
             run_rows(ctx, shard['rows'] * 1000 + i)
+        return
+    if 'kinds' in shard:
+        for i in range(shard['n']):
+            run_kinds(ctx, shard['kinds'] * 1000 + i)
         return
     if 'clock' in shard:
         for i in range(shard['n']):
